@@ -30,6 +30,21 @@ Proof.
 Qed.
 Print Assumptions C10_limit.
 
+(* Once the limit is reached the admitted set is frozen, for every interleaving that follows: only combinations admitted
+   before are ever routed — a combination refused for the limit stays refused.  Storing the shard before the limit
+   check (the refused combination left in the map) is refuted. *)
+Theorem C10_refused_stays_refused : forall limit evs s s1 os,
+  0 < limit -> limit <= size s -> mrun limit s evs = (s1, os) ->
+  batchers s1 = batchers s /\ forall k, In (Routed k) os -> In k (batchers s).
+Proof. exact refused_stays_refused. Qed.
+Print Assumptions C10_refused_stays_refused.
+
+Example C10_store_first_refuted :
+  let evs := [FastLoad 1 10; LockSection 1; FastLoad 2 20; LockSection 2; FastLoad 3 20] in
+  mrun_store_first 1 minit evs = [Pending; Routed 10; Pending; Refused; Routed 20] /\
+  snd (mrun 1 minit evs) = [Pending; Routed 10; Pending; Refused; Pending].
+Proof. exact store_first_refuted. Qed.
+
 (* non-vacuity: two goroutines miss on different new combinations with one slot left *)
 Example C10_example_race :
   snd (mrun 1 minit [FastLoad 1 10; FastLoad 2 20; LockSection 2; LockSection 1; FastLoad 3 20]) =
